@@ -260,9 +260,9 @@ PROPS["C08"] = dict(
     functions=["ecdsa.ecdsa.Public_key.__init__", "ecdsa.ecdsa.point_is_valid", "ecdsa.keys.VerifyingKey.from_public_point", "ecdsa.keys.VerifyingKey.from_string",
                "ecdsa.ellipticcurve.CurveFp.contains_point", "ecdsa.numbertheory.square_root_mod_prime", "ecdsa.numbertheory.jacobi", "ecdsa.util.string_to_number"],
     lemmas=[],
-    bounded=[dict(function="ecdsa.keys.VerifyingKey.from_string", role="CPython cross-check against an independent SEC 1 / X9.62 decoder; exhibits finding F7", bound="17 named curves x (G, 2G, (n-1)G, a random multiple, 6 (quick) / 40 (thorough) curve points found by x-scan) x 13 encodings (4 valid forms, wrong parity, wrong prefix, wrong lengths, y+1, -y) + out-of-range coordinates", budget_s={"quick": 12, "thorough": 300})],
+    bounded=[dict(function="ecdsa.keys.VerifyingKey.from_string", role="CPython cross-check against an independent SEC 1 / X9.62 decoder (this is what exhibited finding F7 before its repair)", bound="17 named curves x (G, 2G, (n-1)G, a random multiple, 6 (quick) / 40 (thorough) curve points found by x-scan) x 13 encodings (4 valid forms, wrong parity, wrong prefix, wrong lengths, y+1, -y) + out-of-range coordinates", budget_s={"quick": 12, "thorough": 300})],
     min_obligations=20,
-    trusted_base=["coordinate world: INSUB(x, y) stands for `n * point == INFINITY` through the contracts of PointJacobi.__mul__/__eq__ (C06/C07); on cofactor-1 curves every curve point is in <G> (SEC 1 3.2.2.1)",
+    trusted_base=["coordinate world: INSUB(x, y) stands for `n * point == INFINITY` computed in the legacy affine class, through the contract of Point.__mul__ (k-fold sum in the true group, points of order 2 included: C07) and Point.__eq__ (C06); on cofactor-1 curves every curve point is in <G> (SEC 1 3.2.2.1)",
                   "contract of square_root_mod_prime and of jacobi (C15; the Legendre clause is discharged from the Jacobi-symbol lemmas)", "byte-string axioms; canonical polynomial form of x mod p arguments (sympy)"],
     explanation="Public_key.__init__, point_is_valid, from_public_point and from_string (with the raw / uncompressed / hybrid / compressed decoders inlined) are executed from the real AST: a key is returned only for one of the four exact encodings with coordinates in range, on the curve and in the subgroup, it denotes the encoded point, and MalformedPointError is raised only when the specification rejects; DER/PEM containers are C09/C10",
 )
